@@ -11,6 +11,8 @@ CONSTANTS
   AtomicAlloc = TRUE
   IdDecode = "unquote"
   IdVocab = "full"
+  KindShift = 0
+  NullResult = "ok"
 INIT Init
 NEXT Next
 INVARIANTS TypeOK Matched
